@@ -131,6 +131,19 @@ theorem handover_latest_values (regs : List (Nat × Bool)) (measured vals : Nat 
       | true => exact absurd ((hasIdx_iff regs m).1 hh) h
     simp [handOver, this]
 
+/-- **index, not position**: what the engine records for the hand-over agrees with the RegRef values on every
+subsystem index of the program — for all registers, holes included … -/
+theorem record_by_index (regs : List (Nat × Bool)) (vals : Nat → Option Val) (m : Nat) (h : m ∈ idxs regs) :
+    recordByIndex regs vals m = vals m := by
+  simp [recordByIndex, (hasIdx_iff regs m).2 h]
+
+/-- … whereas a record keyed by the position among the valid subsystems (seeded change C09-b1) hands, once
+subsystem 0 of three has been deleted, the value of subsystem 2 to the reader of subsystem 1 -/
+theorem record_by_position_counterexample :
+    recordByPosition [(0, false), (1, true), (2, true)] (fun m => some [(m : Rat)]) 1 = some [2] ∧
+    recordByIndex [(0, false), (1, true), (2, true)] (fun m => some [(m : Rat)]) 1 = some [1] := by
+  decide +kernel
+
 /-- compilation (recursive decomposition for the target compiler) commutes with concatenation -/
 theorem compile_concat (n : Nat) (a b : List Cmd) :
     decompList n cp (a ++ b) = bind2 (decompList n cp a) (decompList n cp b) :=
